@@ -250,23 +250,27 @@ func (w *world) calibrate() (offset, count map[string]int, err error) {
 // offset of calls made before it comes from Fault.N already being absolute
 // (see sweep), so here it is used as is.
 func (w *world) runChild() (*outcome, error) {
-	// a fresh calibration of the offset for exactly this world
-	offset, _, err := w.calibrateOffsetOnly()
-	if err != nil {
-		return nil, err
+	// the offset of the calls made before core.Transition: measured by the
+	// sweep for this binary, or measured now (replay, corpus)
+	fl := w.c.Fault
+	offset := map[string]int{fl.Syscall: fl.Offset}
+	if fl.Offset == 0 {
+		var err error
+		if offset, _, err = w.calibrateOffsetOnly(); err != nil {
+			return nil, err
+		}
 	}
 	inFile, outFile, err := w.writeChildInput()
 	if err != nil {
 		return nil, err
 	}
 	os.Remove(outFile)
-	fl := w.c.Fault
 	errno := fl.Errno
 	if errno == "" {
 		errno = "EIO"
 	}
 	self, _ := os.Executable()
-	cmd := exec.Command("strace", "-f", "-o", "/dev/null", "-e", "trace=none",
+	cmd := exec.Command("strace", "-f", "-o", "/dev/null", "-e", "trace="+fl.Syscall,
 		"-e", fmt.Sprintf("inject=%s:error=%s:when=%d", fl.Syscall, errno, offset[fl.Syscall]+fl.N),
 		self, "-child", inFile)
 	if b, e := cmd.CombinedOutput(); e != nil {
@@ -295,8 +299,8 @@ func sweep(cfg *hx.Config, wr *hx.Writer, add func(Case, string)) {
 		return
 	}
 	r := cfg.Rand
-	nseeds := 260
-	maxPerCall := 10
+	nseeds := 100
+	maxPerCall := 8
 	total := 0
 	type job struct{ c Case }
 	var jobs []job
@@ -309,7 +313,7 @@ func sweep(cfg *hx.Config, wr *hx.Writer, add func(Case, string)) {
 			}
 			continue
 		}
-		_, count, err := w.calibrate()
+		offset, count, err := w.calibrate()
 		w.cleanup()
 		if err != nil {
 			fmt.Fprintf(os.Stderr, "calibrate seed %d: %v\n", seed, err)
@@ -321,11 +325,11 @@ func sweep(cfg *hx.Config, wr *hx.Writer, add func(Case, string)) {
 				n = maxPerCall
 			}
 			for k := 1; k <= n; k++ {
-				jobs = append(jobs, job{Case{Prop: "C09", Seed: seed, Fault: &Fault{Syscall: s, N: k, Errno: "EIO"}}})
+				jobs = append(jobs, job{Case{Prop: "C09", Seed: seed, Fault: &Fault{Syscall: s, N: k, Errno: "EIO", Offset: offset[s]}}})
 			}
 			if s == "renameat2" {
 				for k := 1; k <= n; k++ {
-					jobs = append(jobs, job{Case{Prop: "C09", Seed: seed, Fault: &Fault{Syscall: s, N: k, Errno: "EXDEV"}}})
+					jobs = append(jobs, job{Case{Prop: "C09", Seed: seed, Fault: &Fault{Syscall: s, N: k, Errno: "EXDEV", Offset: offset[s]}}})
 				}
 			}
 		}
